@@ -319,7 +319,7 @@ func c05Parse(r *vf.Run, id string, s fspec) {
 			http2.ReleaseFrameHeader(fr)
 			return
 		}
-		if s.Type != wire.TPushPromise && s.ExtraFlags == 0 {
+		if s.Type != wire.TPushPromise {
 			c05Reserialise(r, id+"r", s, fr, replay)
 		}
 		http2.ReleaseFrameHeader(fr)
@@ -347,6 +347,10 @@ func c05Write(r *vf.Run, id string, s fspec) {
 		fr := http2.AcquireFrameHeader()
 		defer http2.ReleaseFrameHeader(fr)
 		fr.SetStream(s.Stream)
+		if s.ExtraFlags != 0 {
+			// undefined flag bits set by the caller must not disturb the rest of the frame
+			fr.SetFlags(http2.FrameFlags(int8(s.ExtraFlags)))
+		}
 		switch s.Type {
 		case wire.TData:
 			d := http2.AcquireFrame(http2.FrameData).(*http2.Data)
@@ -724,6 +728,9 @@ func TestC05(t *testing.T) {
 			}
 			if id, ok := next("xflags"); ok {
 				c05Parse(r, id, s)
+				if typ != wire.TPushPromise {
+					c05Write(r, id+"w", s)
+				}
 			}
 			s.Reserved = true
 			if id, ok := next("reserved"); ok {
